@@ -719,3 +719,217 @@ Proof.
   - destruct (In_nth _ _ 0%nat Hin) as (t & Ht & <-). rewrite lu_cols_len in Ht. apply (li_zero_unpiv n B st I i t Hi NI' Ht).
   - apply Z; [exact Hj|]. unfold lu_cols in Hout. rewrite P in Hout. exact Hout.
 Qed.
+
+(* a state without admissible pivot before the matrix is exhausted: the whole kernel is zero, B is singular *)
+Lemma lu_stuck_null n B st : lu_inv n B st -> (length (lu_piv st) < n)%nat ->
+  (forall r c, (r < n)%nat -> (c < n)%nat -> lu_ok n st r c = false) -> exists y, left_null n B y.
+Proof.
+  intros I K NO.
+  destruct (nodup_missing n (lu_rows st) (li_rnd n B st I) ltac:(rewrite lu_rows_len; exact K)) as (i & Hi & NI).
+  eexists. apply (lu_zero_row_null n B st i I Hi NI).
+  intros j Hj. destruct (in_dec Nat.eq_dec j (lu_cols st)) as [Hin|Hout].
+  - destruct (In_nth _ _ 0%nat Hin) as (t & Ht & <-). rewrite lu_cols_len in Ht. apply (li_zero_unpiv n B st I i t Hi NI Ht).
+  - destruct (Qeq_bool (mget (lu_A st) i j) 0) eqn:Z; [apply Qeq_bool_iff; exact Z|]. exfalso.
+    assert (OK : lu_ok n st i j = true).
+    { apply lu_ok_spec. repeat split; try assumption. apply Qeq_bool_false_neq. exact Z. }
+    rewrite (NO i j Hi Hj) in OK. discriminate.
+Qed.
+
+Theorem lu_stuck_singular n B piv st : lu_steps n (lu_init n B) piv = Some st -> (length piv < n)%nat ->
+  (forall r c, (r < n)%nat -> (c < n)%nat -> lu_ok n st r c = false) -> ~ nonsingular n B.
+Proof.
+  intros S K NO. destruct (lu_steps_inv n B piv _ st (lu_inv_init n B) S) as [I P]. cbn [lu_init lu_piv app] in P.
+  destruct (lu_stuck_null n B st I ltac:(rewrite P; exact K) NO) as [y Hy]. exact (left_null_singular n B y Hy).
+Qed.
+
+Lemma lu_find_some n st rc : lu_find n st = Some rc -> lu_ok n st (fst rc) (snd rc) = true.
+Proof. unfold lu_find. intros H. apply find_some in H. exact (proj2 H). Qed.
+
+Lemma lu_find_none n st : lu_find n st = None -> forall r c, (r < n)%nat -> (c < n)%nat -> lu_ok n st r c = false.
+Proof.
+  unfold lu_find. intros H r c Hr Hc. apply (find_none _ _ H (r, c)). apply in_prod; apply in_seq; lia.
+Qed.
+
+Lemma lu_step_ok n st rc : lu_ok n st (fst rc) (snd rc) = true -> exists st', lu_step n st rc = Some st'.
+Proof. intros H. unfold lu_step. rewrite H. eexists. reflexivity. Qed.
+
+Lemma lu_step_len n st rc st' : lu_step n st rc = Some st' -> length (lu_piv st') = S (length (lu_piv st)).
+Proof.
+  unfold lu_step. destruct (lu_ok n st (fst rc) (snd rc)); [|discriminate]. intros E. inversion E. cbn [lu_piv].
+  rewrite app_length. simpl. lia.
+Qed.
+
+(* a non-singular matrix never gets stuck: after any admissible pivots that do not exhaust it there is a next one *)
+Theorem lu_never_stuck n B piv st : nonsingular n B -> lu_steps n (lu_init n B) piv = Some st -> (length piv < n)%nat ->
+  exists rc st', lu_step n st rc = Some st'.
+Proof.
+  intros NS S K. destruct (lu_find n st) as [rc|] eqn:F.
+  - exists rc. apply lu_step_ok. apply lu_find_some. exact F.
+  - exfalso. exact (lu_stuck_singular n B piv st S K (lu_find_none n st F) NS).
+Qed.
+
+(* the search: runs until the matrix is exhausted or no pivot is left *)
+Lemma lu_auto_spec n B : forall fuel st, lu_inv n B st ->
+  exists p, lu_steps n st p = Some (lu_auto n fuel st) /\
+            (length p = fuel \/ ((length p < fuel)%nat /\ lu_find n (lu_auto n fuel st) = None)).
+Proof.
+  induction fuel as [|fuel IH]; intros st I; cbn [lu_auto].
+  - exists []. split; [reflexivity|left; reflexivity].
+  - destruct (lu_find n st) as [rc|] eqn:F.
+    + destruct (lu_step_ok n st rc (lu_find_some n st rc F)) as [st1 S1]. rewrite S1.
+      destruct (IH st1 (lu_step_inv n B st rc st1 I S1)) as (p & Sp & Hp).
+      exists (rc :: p). split; [cbn [lu_steps]; rewrite S1; exact Sp|]. cbn [length]. destruct Hp as [E|[L N]]; [left; lia|right; split; [lia|exact N]].
+    + exists []. split; [reflexivity|]. right. split; [simpl; lia|exact F].
+Qed.
+
+(* a non-singular matrix has a complete admissible pivot sequence (the one the search finds) *)
+Theorem lu_factor_complete n B : nonsingular n B -> exists r, lu_factor n B (lu_auto_pivots n B) = Some r.
+Proof.
+  intros NS. unfold lu_auto_pivots.
+  destruct (lu_auto_spec n B n (lu_init n B) (lu_inv_init n B)) as (p & S & H).
+  destruct (lu_steps_inv n B p _ _ (lu_inv_init n B) S) as [I P]. cbn [lu_init lu_piv app] in P.
+  destruct H as [L|[L N]].
+  - exists (lu_repr n (lu_auto n n (lu_init n B))). unfold lu_factor. rewrite P, L, Nat.eqb_refl, S. reflexivity.
+  - exfalso. exact (lu_stuck_singular n B p _ S L (lu_find_none n _ N) NS).
+Qed.
+
+(* singular <-> no pivot sequence succeeds *)
+Theorem lu_factor_some_iff n B : (exists piv r, lu_factor n B piv = Some r) <-> nonsingular n B.
+Proof.
+  split.
+  - intros (piv & r & H). exact (lu_factor_nonsingular n B piv r H).
+  - intros NS. destruct (lu_factor_complete n B NS) as [r H]. exists (lu_auto_pivots n B), r. exact H.
+Qed.
+
+Theorem lu_singular_fails n B piv : ~ nonsingular n B -> lu_factor n B piv = None.
+Proof.
+  intros S. destruct (lu_factor n B piv) as [r|] eqn:H; [|reflexivity]. exfalso. exact (S (lu_factor_nonsingular n B piv r H)).
+Qed.
+
+(* for a singular matrix every admissible pivot sequence, continued as long as a non-zero pivot is left, gets stuck before
+   the matrix is exhausted: in a state whose whole kernel is zero - what handle_singularity reports *)
+Theorem lu_singular_gets_stuck n B piv st : ~ nonsingular n B -> lu_steps n (lu_init n B) piv = Some st ->
+  exists piv' st', lu_steps n (lu_init n B) (piv ++ piv') = Some st' /\ (length (piv ++ piv') < n)%nat /\
+                   forall r c, (r < n)%nat -> (c < n)%nat -> lu_ok n st' r c = false.
+Proof.
+  intros SG S. destruct (lu_steps_inv n B piv _ st (lu_inv_init n B) S) as [I P]. cbn [lu_init lu_piv app] in P.
+  assert (K : (length piv <= n)%nat).
+  { rewrite <- P, <- lu_rows_len. pose proof (NoDup_incl_length (li_rnd n B st I) (l' := seq 0 n)) as H. rewrite seq_length in H. apply H.
+    intros x Hx. apply in_seq. pose proof (li_rlt n B st I x Hx). lia. }
+  destruct (lu_auto_spec n B (n - length piv) st I) as (p & Sp & H).
+  exists p, (lu_auto n (n - length piv) st).
+  assert (S2 : lu_steps n (lu_init n B) (piv ++ p) = Some (lu_auto n (n - length piv) st)) by (rewrite lu_steps_app, S; exact Sp).
+  split; [exact S2|]. rewrite app_length. destruct H as [L|[L N]].
+  - exfalso. apply SG. apply (lu_factor_nonsingular n B (piv ++ p) (lu_repr n (lu_auto n (n - length piv) st))).
+    unfold lu_factor. rewrite app_length, L. replace (length piv + (n - length piv))%nat with n by lia. rewrite Nat.eqb_refl, S2. reflexivity.
+  - split; [lia|]. apply lu_find_none. exact N.
+Qed.
+
+(* what an admissible step is *)
+Theorem lu_step_some_iff n st rc : (exists st', lu_step n st rc = Some st') <->
+  (fst rc < n)%nat /\ (snd rc < n)%nat /\ ~ In (fst rc) (lu_rows st) /\ ~ In (snd rc) (lu_cols st) /\
+  ~ mget (lu_A st) (fst rc) (snd rc) == 0.
+Proof.
+  rewrite <- lu_ok_spec. split.
+  - intros [st' H]. unfold lu_step in H. destruct (lu_ok n st (fst rc) (snd rc)); [reflexivity|discriminate].
+  - apply lu_step_ok.
+Qed.
+
+(* ---- the kernel has a zero column ------------------------------------------------------------------------------- *)
+Lemma lu_inv_len n B st : lu_inv n B st -> (length (lu_piv st) <= n)%nat.
+Proof.
+  intros I. rewrite <- lu_rows_len. pose proof (NoDup_incl_length (li_rnd n B st I) (l' := seq 0 n)) as H. rewrite seq_length in H. apply H.
+  intros x Hx. apply in_seq. pose proof (li_rlt n B st I x Hx). lia.
+Qed.
+
+Definition zero_col (n : nat) (st : lu_state) (c : nat) : Prop :=
+  ~ In c (lu_cols st) /\ forall i, (i < n)%nat -> ~ In i (lu_rows st) -> mget (lu_A st) i c == 0.
+
+Lemma zero_col_step n st rc st' c : (c < n)%nat -> zero_col n st c -> lu_step n st rc = Some st' -> zero_col n st' c.
+Proof.
+  intros Hc [NC Z] S. unfold lu_step in S. destruct rc as [r' c']. cbn [fst snd] in S.
+  destruct (lu_ok n st r' c') eqn:OK; [|discriminate]. inversion S; subst st'; clear S.
+  apply lu_ok_spec in OK. destruct OK as (Hr & Hc' & NR & NC' & PV).
+  assert (NE : c' <> c) by (intros ->; apply PV; apply Z; assumption).
+  split.
+  - unfold lu_cols. cbn [lu_piv]. rewrite map_app. intros H. apply in_app_iff in H. destruct H as [H|[H|[]]]; [exact (NC H)|]. cbn [snd] in H. congruence.
+  - unfold lu_rows. cbn [lu_piv lu_A]. rewrite map_app. intros i Hi NI.
+    assert (NI' : ~ In i (lu_rows st)) by (intros H; apply NI; apply in_app_iff; left; exact H).
+    rewrite mget_lu_elim by assumption. destruct (lu_active st r' c' i); [|apply Z; assumption].
+    destruct (Nat.eqb_spec c c'); [congruence|].
+    destruct (Qeq_bool (mget (lu_A st) r' c) 0); [apply Z; assumption|].
+    rarith. rewrite (Z i Hi NI'), (Z r' Hr NR). ring.
+Qed.
+
+Lemma zero_col_steps n c : (c < n)%nat -> forall p st st', zero_col n st c -> lu_steps n st p = Some st' -> zero_col n st' c.
+Proof.
+  intros Hc. induction p as [|rc p IH]; intros st st' Z S; simpl in S; [inversion S; subst; exact Z|].
+  destruct (lu_step n st rc) as [st1|] eqn:S1; [|discriminate]. apply (IH st1 st' (zero_col_step n st rc st1 c Hc Z S1) S).
+Qed.
+
+Theorem lu_zero_col_singular n B piv st c : lu_steps n (lu_init n B) piv = Some st ->
+  (c < n)%nat -> ~ In c (map snd piv) ->
+  (forall i, (i < n)%nat -> ~ In i (map fst piv) -> mget (lu_A st) i c == 0) -> ~ nonsingular n B.
+Proof.
+  intros S Hc NC Z NS. destruct (lu_steps_inv n B piv _ st (lu_inv_init n B) S) as [I P]. cbn [lu_init lu_piv app] in P.
+  assert (ZC : zero_col n st c).
+  { split; [unfold lu_cols; rewrite P; exact NC|]. intros i Hi NI. apply Z; [exact Hi|]. unfold lu_rows in NI. rewrite P in NI. exact NI. }
+  pose proof (lu_inv_len n B st I) as K. rewrite P in K.
+  destruct (lu_auto_spec n B (n - length piv) st I) as (p & Sp & H).
+  assert (S2 : lu_steps n (lu_init n B) (piv ++ p) = Some (lu_auto n (n - length piv) st)) by (rewrite lu_steps_app, S; exact Sp).
+  destruct (lu_steps_inv n B (piv ++ p) _ _ (lu_inv_init n B) S2) as [I2 P2]. cbn [lu_init lu_piv app] in P2.
+  destruct (zero_col_steps n c Hc p st _ ZC Sp) as [NC2 _].
+  destruct H as [L|[L N]].
+  - apply NC2. apply (fin_ccov n B _ I2); [|exact Hc]. rewrite P2, app_length, L. lia.
+  - apply (lu_stuck_singular n B (piv ++ p) _ S2); [rewrite app_length; lia|apply lu_find_none; exact N|exact NS].
+Qed.
+
+(* ================================================================================================= the report of a singular factorization *)
+Lemma assoc_nat_in k l : NoDup (map fst l) -> forall v, In (k, v) l -> assoc_nat k l = Some v.
+Proof.
+  induction l as [|[a b] l IH]; intros ND v H; [destruct H|]. cbn [map fst] in ND. inversion ND as [|? ? NI ND']; subst. cbn [assoc_nat].
+  destruct H as [E|H].
+  - inversion E; subst. rewrite Nat.eqb_refl. reflexivity.
+  - destruct (Nat.eqb_spec a k) as [->|NE]; [|apply IH; assumption]. exfalso. apply NI. apply (in_map fst _ _ H).
+Qed.
+
+Lemma mget_repair n B sing i j : (i < n)%nat -> (j < n)%nat ->
+  mget (repair_cols n B sing) i j = match assoc_nat j sing with Some r => if Nat.eqb i r then 1 else 0 | None => mget B i j end.
+Proof. intros Hi Hj. unfold repair_cols. apply mget_mkmat; assumption. Qed.
+
+(* sing = [(singc_i, singr_i)], X accepted by check_sing_report: the matrix with the columns singc_i replaced by the unit
+   columns of the rows singr_i (the repair of ILLbasis_factor) is non-singular; row singc_i of X is a left null vector of B
+   with a 1 in position singr_i and 0 in the positions singr_j of the other pairs: |sing| linearly independent null
+   vectors - the rank deficiency of B is exactly |sing| *)
+Theorem sing_report_sound n B sing X : check_sing_report n B sing X = true -> NoDup (map fst sing) ->
+  nonsingular n (repair_cols n B sing) /\
+  (forall c r, In (c, r) sing ->
+     (forall j, (j < n)%nat -> sumn n (fun i => mget X c i * mget B i j) == 0) /\
+     (forall c' r', In (c', r') sing -> mget X c r' == if Nat.eqb c c' then 1 else 0)) /\
+  (sing <> [] -> ~ nonsingular n B).
+Proof.
+  unfold check_sing_report. intros H ND. apply andb_true_iff in H. destruct H as [H H3]. apply andb_true_iff in H. destruct H as [H1 H2].
+  rewrite forallb_forall in H1, H2, H3.
+  assert (NSR : nonsingular n (repair_cols n B sing)).
+  { apply (check_binv_all_nonsingular n _ X). intros i Hi. apply H1. apply in_seq. lia. }
+  assert (P2 : forall c r, In (c, r) sing ->
+     (forall j, (j < n)%nat -> sumn n (fun i => mget X c i * mget B i j) == 0) /\
+     (forall c' r', In (c', r') sing -> mget X c r' == if Nat.eqb c c' then 1 else 0)).
+  { intros c r Hin. pose proof (H3 _ Hin) as B3. cbn [fst snd] in B3. apply andb_true_iff in B3. destruct B3 as [Hc Hr].
+    apply Nat.ltb_lt in Hc. apply Nat.ltb_lt in Hr. split.
+    - intros j Hj. pose proof (H2 _ Hin) as C. cbn [fst] in C. apply check_btran_spec in C. rewrite (C j Hj). rewrite qnth_mkvec by exact Hj. reflexivity.
+    - intros c' r' Hin'. pose proof (H3 _ Hin') as B3'. cbn [fst snd] in B3'. apply andb_true_iff in B3'. destruct B3' as [Hc' Hr'].
+      apply Nat.ltb_lt in Hc'. apply Nat.ltb_lt in Hr'.
+      pose proof (H1 c ltac:(apply in_seq; lia)) as C. apply check_binv_row_spec in C; [|exact Hc]. specialize (C c' Hc').
+      rewrite qnth_unitv in C by exact Hc'. rewrite (Nat.eqb_sym c' c) in C. rewrite <- C.
+      symmetry. etransitivity; [apply (sumn_single n r'); [exact Hr'|]|].
+      + intros i Hi NE. rewrite mget_repair by assumption. rewrite (assoc_nat_in c' sing ND r' Hin').
+        destruct (Nat.eqb_spec i r'); [congruence|ring].
+      + cbv beta. rewrite mget_repair by assumption. rewrite (assoc_nat_in c' sing ND r' Hin'). rewrite Nat.eqb_refl. unfold mget. ring. }
+  split; [exact NSR|]. split; [exact P2|].
+  intros NE. destruct sing as [|[c r] sing']; [congruence|].
+  destruct (P2 c r (or_introl eq_refl)) as [Z D]. pose proof (H3 _ (or_introl eq_refl)) as B3. cbn [fst snd] in B3.
+  apply andb_true_iff in B3. destruct B3 as [Hc Hr]. apply Nat.ltb_lt in Hc. apply Nat.ltb_lt in Hr.
+  apply (left_null_singular n B (mrow X c)). split; [exact Z|]. exists r. split; [exact Hr|].
+  specialize (D c r (or_introl eq_refl)). rewrite Nat.eqb_refl in D. unfold mget in D. rewrite D. discriminate.
+Qed.
